@@ -310,7 +310,7 @@ def cross(
 
     info = {"nsamples": 0, "eval_time": 0, "val_epss": [], "min": 0, "argmin": None}
     if record_samples:
-        info["sample_positions"] = torch.zeros(0, N).to(device)
+        info["sample_positions"] = torch.zeros(0, len(tensors)).to(device)
         info["sample_values"] = torch.zeros(0).to(device)
 
     def evaluate_function(
